@@ -3,17 +3,18 @@ import csv_common as C
 
 LEVEL = "proof"
 TRUSTED_BASE = [
-    "Coq 8.16.1 kernel incl. vm_compute (witnesses of the _refuted theorems); no axioms (every theorem: Closed under the global context)",
-    "coq/CsvSpec.v as the reading of RFC 4180: separator as a parameter, TEXTDATA widened to every byte other than DQUOTE/separator/CR/LF, LF or CRLF as line break, a final line break starts no record; render and rfc_parse are proved to agree (CsvSpecProofs.v)",
-    "coq/CsvModel.v as a mirror of src/csv/csv_writers.cpp, csv_readers.cpp, csv_archive.cpp and the scopes of csv_archive.h — tied to /repo only by the correspondence run (harness/drv_csv.cpp vs extracted model, same case lines)",
+    "Coq 8.16.1 kernel incl. vm_compute (witnesses of the two _refuted theorems and the Examples); no axioms (every theorem: Closed under the global context)",
+    "coq/CsvSpec.v as the reading of RFC 4180: separator as a parameter, TEXTDATA widened to every byte other than DQUOTE/separator/CR/LF, LF or CRLF as line break, a final line break starts no record, the empty text is no file; render (grammar in generative form) and rfc_parse (reference parser) are proved to define the same language and table (T_C09_spec_parse_inverts_render, T_C09_spec_parse_accepts_only_renderings)",
+    "coq/CsvModel.v as a mirror of src/csv/csv_writers.cpp, csv_readers.cpp, csv_archive.cpp, the scopes of csv_archive.h as driven by SaveObject/LoadObject of a std::vector of classes with string members, and CEncodedStreamReader<char> for a UTF-8 source — tied to /repo only by the correspondence run (harness/drv_csv.cpp vs extracted model, same case lines)",
     "extraction (ExtrOcamlBasic only), ml/glue.ml + ml/csv_driver.ml, harness/drv_csv.cpp + common.h, props/C09.py + csv_common.py (generators, independent Python RFC 4180 writer/parser used to generate renderings and to judge differences), tools/vlib.py",
     "modelled, not verified: std::string/std::vector operations, std::istream::read/gcount/eof on an istringstream, implicit noexcept of destructors (a throw from ~CCsvWriteObjectScope is std::terminate)",
 ]
 ASSUMPTIONS = [
     "fields are byte strings; the CSV text is UTF-8 in memory or a UTF-8 stream (with or without BOM) that DetectEncoding classifies as UTF-8 (no zero byte and no UTF-16/32 BOM in the first chunk) — other stream encodings are the composition with C13 and are not exercised here",
-    "the reading side is a std::vector of a class whose Serialize asks for string members by name; reading by name presupposes distinct header names (NoDup hdr in the reader theorems)",
+    "the reading side is a std::vector of a class whose Serialize asks for string members by name; T_C09_reader_rfc* presuppose distinct header names (NoDup hdr); T_C09_reader_any_header says what is returned otherwise",
     "the stream reader theorems are for every chunk size K >= 1; the library instantiates K = 256 and only that value is exercised against the code",
     "the row-width check of the writers compares with the first row (mPrevValuesCount), as the code does",
+    "known findings, mirrored by the model and named by _refuted theorems: F18 (writer-side width error leaves a destructor => std::terminate), F22 (no rows => nothing written, not even the header)",
 ]
 
 RULE = ("tables 1..6 columns x 0..5 rows over an alphabet weighted to DQUOTE , ; TAB | SPACE CR LF CRLF and multi-byte UTF-8, field lengths 0..700 "
